@@ -124,7 +124,7 @@ def check_mvdr(run, A):
         r = axis_reordering(x)
         return r is not None and r[1] == ('swap', frozenset((-1, -2)))
     herm = [t for e in g.events if e.term is not None for t in walk_terms(e.term, into_mu=True)
-            if t.op == 'binop' and t.args[0] == 'Add' and derives(t, 'noise_psd_matrix')
+            if t.op in ('binop', 'iop') and t.args[0] == 'Add' and derives(t, 'noise_psd_matrix')
             and any(last_two_swapped(x) for side in (t.args[1], t.args[2]) for x in walk_terms(side))]
     okh = False
     for t in herm:
@@ -165,6 +165,9 @@ def check_mvdr(run, A):
                         x = strip_views(newaxis_insertions(x)[0])
                 return x
             lb = base_param(l)
+            if not (lb.op == 'param' and lb.args[0] == 'noise_psd_matrix'):
+                l, r = r, l          # Phi^H + Phi: the plain matrix is the second summand
+                lb = base_param(l)
             exact = lb.op == 'param' and lb.args[0] == 'noise_psd_matrix' and derives(r, 'noise_psd_matrix') and \
                 not any(x.op == 'call' and call_parts(x)[0] and call_parts(x)[0].startswith('pb_bss.') for x in walk_terms(sym, into_mu=True))
         run.check(exact, 'R-ROLE', 'get_mvdr_vector: the solved matrix is the given noise PSD (symmetrised only)', fn.loc(t.node), '',
